@@ -574,6 +574,18 @@ def file_oracle(ts, recs, N, start=None):
     return list(bad.values()), exp_on, stats
 
 
+def prev_of_kind(cfg, kind, seed=0):
+    """`W.prev_variant` with the wanted `what_differs` (the shared helper draws the kind from its rng)"""
+    import random as _r
+    from harness import wholerun as W
+
+    for k in range(400):
+        prev, what = W.prev_variant(cfg, _r.Random(seed * 1009 + k))
+        if what == kind and prev != {x: cfg[x] for x in prev}:
+            return prev, what
+    return W.prev_variant(cfg, _r.Random(seed))
+
+
 PARTIAL = []   # crashed runs of the current check run (their completed programs are judged on the files alone)
 
 
@@ -591,6 +603,43 @@ def run_whole_configs(ctx, n):
     for j, (st, en) in enumerate(periods[:ctx.pick(2, 3)]):
         cfgs.append(W.make_config(ctx.rng, **dict(FORCED, start=st, end=en, n_sites=4,
                                                   rep={"epr": 0.0625, "duration": 30, "multi": True})))
+    # "wide" configurations (harness/wholerun.py `_wide_catalogue`: leaves of the parameter space and boundary values
+    # the base generator never produces).  Every leaf is read back from the cfg by the oracles (durations, repair
+    # delays, reporting delays, number of simulations, coverage); cfg["wide_applied"] is counted in the evidence.
+    WIDE_TAGS = ["durations", "repairs", "sims", "coverage", "crews", "workday", "delays", "freq", "months", "years",
+                 "weather", "followup", "fractional"]
+    wide_plan = [["durations", "repairs", "sims"], True, ["coverage"], ["fractional"], ["repairs", "delays"], ["sims", "crews", "workday"],
+                 ["freq", "months", "years"], ["weather", "followup"], WIDE_TAGS, ["durations", "coverage", "sims"], ["sims-batch"],
+                 ["durations"]]
+    for j, tags in enumerate(wide_plan[:ctx.pick(4, 12)]):
+        c = W.make_config(ctx.rng, wide=tags, ndays=[120, 200][j % 2], n_sites=4 + j % 2, pre_sim_emissions=True)
+        if j == 0:
+            # the short-lived focus, whatever the catalogue drew: emissions that begin and end within two rows of the
+            # daily series, repaired the day after the tag, one timeseries file per program and simulation
+            forced = {("c", "rep", "duration"): [1, 2][ctx.rng.randrange(2)], ("c", "nonrep", "duration"): 1,
+                      ("c", "repair_delay"): [0], ("c", "n_sims"): 2}
+            for path, v in forced.items():
+                d = c
+                for k in path[1:-1]:
+                    d = d[k]
+                d[path[-1]] = v
+                c["wide_applied"] = [a for a in c.get("wide_applied", []) if tuple(a["path"]) != path]
+                c["wide_applied"].append({"tag": "focus", "path": list(path), "value": v})
+            c["methods"]["OGI"].update(reporting_delay=0, months=list(range(1, 13)), surveys_per_year=12)
+        if tags == ["coverage"]:
+            # zero coverage on purpose: every screening / survey method of every program sees nothing
+            for m, d in c["methods"].items():
+                if not d["is_follow_up"]:
+                    d["spatial"] = 0.0
+                    c.setdefault("wide_applied", []).append({"tag": "coverage", "path": ["m", m, "spatial"], "value": 0.0})
+                    if d["deployment_type"] == "stationary" and j % 2 == 0:
+                        d["follow_up"]["rolling"]["small_window_threshold"] = 1.0
+        c["wide_tags"] = "all" if tags is True else tags
+        cfgs.append(c)
+        ctx.count("wholerun_wide_runs")
+        for a in c.get("wide_applied", []):
+            ctx.count("wholerun_wide_leaf:%s=%s" % ("/".join(str(x) for x in a["path"] if x not in ("m", "c")),
+                                                    json.dumps(a["value"])[:40]))
     jobs = [(c, True, 1) for c in cfgs]
     # one pool-mode job per run: 6 programs on a 1-process pool, so that Pool.starmap sends several program
     # tasks to the worker in one chunk (pickled together) — the ledger / counts / reconstruction oracles then
@@ -602,10 +651,31 @@ def run_whole_configs(ctx, n):
         {"name": "P_fix", "methods": ["FIX", "OGI_FU2"]}, {"name": "P_OGIb", "methods": ["OGI"]},
         {"name": "P_airb", "methods": ["AIR", "OGI_FU"]}) if p["name"] not in have]
     jobs.append((pool_cfg, False, 1))
+    jobs = [j + (None,) for j in jobs]
+    # "history" shape: the property must hold for the run the user asked for WHATEVER was run in that folder
+    # before.  An earlier configuration that differs in ONE defining leaf is run first, then cfg in the same folder
+    # (generator folder and outputs left as the first run left them); all oracles and the trace conformance are
+    # applied to the second run against cfg.
+    kinds = ["period-start", "duration", "pre-sim", "rates", "period-end", "n-sims"]
+    for j, kind in enumerate(kinds[:ctx.pick(1, 4)]):
+        c = W.make_config(ctx.rng, **dict(FORCED, ndays=[150, 120][j % 2], n_sites=4))
+        prev, what = prev_of_kind(c, kind, seed=j)
+        c["history"] = what
+        jobs.append((c, True, 1, prev))
+        ctx.count("history:" + what)
+
+    def _run(j):
+        if j[3] is not None:
+            return W.run_after(j[3], j[0], debug=j[1], processes=j[2], trace=True)
+        return W.run_config(j[0], debug=j[1], processes=j[2], trace=True)
+
     with cf.ThreadPoolExecutor(max_workers=min(8, max(1, len(jobs)))) as ex:
-        results = list(ex.map(lambda j: W.run_config(j[0], debug=j[1], processes=j[2], trace=True), jobs))
-    for (c, dbg, procs), r in zip(jobs, results):
+        results = list(ex.map(_run, jobs))
+    for (c, dbg, procs, prev), r in zip(jobs, results):
         r.pool_mode = not dbg
+        r.prev_cfg = prev
+        if prev is not None and getattr(r, "prev_rc", 0) != 0:
+            ctx.count("history_first_run_stopped")
     good, last = [], ""
     for k, r in enumerate(results):
         r.crashed = r.rc != 0
@@ -636,6 +706,8 @@ def judge_program_run(ctx, res, recs_all, prog, sim, method_ids, delays, record=
     recs = [r for r in recs_all if r["prog"] == prog and r["sim"] == sim]
     inp = {"cfg": res.cfg, "prog": prog, "sim": sim, "pool_mode": bool(getattr(res, "pool_mode", False)),
            "run_crashed_later": bool(getattr(res, "crashed", False))}
+    if getattr(res, "prev_cfg", None) is not None:
+        inp["run_before_in_the_same_folder"] = res.prev_cfg
     N = res.ndays
     raised = []
     if ts is None or len(ts) != N:
@@ -712,18 +784,101 @@ def judge_program_run(ctx, res, recs_all, prog, sim, method_ids, delays, record=
     return raised
 
 
+def config_delays(cfg):
+    """the configured repair delays in whole days: a leak is repaired in the first daily update in which
+    days-since-tagged >= delay + reporting delay, so a fractional delay acts as its ceiling"""
+    import math
+
+    return sorted({int(math.ceil(float(x))) for x in cfg["repair_delay"]})
+
+
+def blind_programs(cfg):
+    """programs that cannot detect anything according to the CONFIGURATION: they deploy at least one method and every
+    method that is not a follow-up has spatial coverage 0 or temporal coverage 0 (follow-ups are only triggered by
+    the flags of the others)"""
+    def blind(m):
+        d = cfg["methods"][m]
+        if not (d["spatial"] == 0 or d["temporal"] == 0):
+            return False
+        if d["deployment_type"] == "stationary":
+            # the stationary work practice makes every monitored site a candidate and follows up when the rolling
+            # average is >= small_window_threshold: with a threshold of 0 a measured rate of 0 qualifies, so such a
+            # program is NOT blind (SiteLevelMethod.update_candidates_for_flags / should_follow_up; instant flags need
+            # rate >= instant_threshold, the long window needs a non-zero average)
+            fu = d.get("follow_up") or {}
+            inst = fu.get("instant_threshold")
+            return fu.get("rolling", {}).get("small_window_threshold", 0.0) > 0 and (inst is None or inst > 0)
+        # mobile screening: a flag needs a non-zero measured rate (or rate >= instant_threshold > 0)
+        inst = (d.get("follow_up") or {}).get("instant_threshold")
+        return inst is None or inst > 0
+
+    out = []
+    for p in cfg["programs"]:
+        prim = [m for m in p["methods"] if not cfg["methods"][m]["is_follow_up"]]
+        if p["methods"] and prim and all(blind(m) for m in prim):
+            out.append(p["name"])
+    return out
+
+
+def zero_coverage_oracle(ctx, res, record=True):
+    """a program with zero coverage tags nothing and repairs nothing: its daily series (counts and emissions) and
+    its emission records' end dates must be the baseline's, day by day"""
+    raised = []
+    base = res.cfg["baseline"]
+    for prog in blind_programs(res.cfg):
+        for sim in range(res.n_sims):
+            a, b = res.timeseries(prog, sim), res.timeseries(base, sim)
+            if a is None or b is None:
+                if record:
+                    ctx.count("zero_coverage_skipped:timeseries-missing")
+                continue
+            if record:
+                ctx.count("zero_coverage_program_runs_checked")
+            bad = next((n for n, (x, y) in enumerate(zip(a, b)) if any(x[c] != y[c] for c in TS.values())), None)
+            if bad is not None or len(a) != len(b):
+                raised.append("C11:zero-coverage-differs-from-baseline")
+                if record:
+                    ctx.violate("C11:zero-coverage-differs-from-baseline",
+                                "a program whose methods have zero spatial / temporal coverage shows a daily series that "
+                                "differs from the baseline's (day %s)" % bad,
+                                {"cfg": res.cfg, "prog": prog, "sim": sim, "day": bad,
+                                 "pool_mode": bool(getattr(res, "pool_mode", False))})
+    return raised
+
+
+def reporting_delay_leaf(ctx, res):
+    """the reporting delay every logged tagging call carries is the one the configuration gives its method"""
+    for t in res.trace:
+        for e in t["events"]:
+            if e[0] == "tag":
+                ctx.count("tag_events_reporting_delay_checked")
+                want = res.cfg["methods"].get(e[5], {}).get("reporting_delay")
+                if want is None or int(e[6]) != int(want):
+                    ctx.disagree("world/tag-reporting-delay-vs-configuration",
+                                 {"cfg": res.cfg, "prog": t["prog"], "sim": t["sim"], "event": e}, want, e[6])
+                    return
+
+
 def wholerun(ctx):
     results = run_whole_configs(ctx, ctx.pick(2, 10))
     try:
         for res in results:
             recs_all = list(EC.records(res))
             method_ids = {m: i + 1 for i, m in enumerate(sorted(res.cfg["methods"]))}
-            delays = [int(x) for x in res.cfg["repair_delay"]]
+            delays = config_delays(res.cfg)
             for sim in range(res.n_sims):
                 for prog in res.programs:
                     judge_program_run(ctx, res, recs_all, prog, sim, method_ids, delays)
                     if getattr(res, "pool_mode", False):
                         ctx.count("wholerun_program_runs_pool_mode")
+            zero_coverage_oracle(ctx, res)
+            reporting_delay_leaf(ctx, res)
+            if res.cfg["rep"]["duration"] <= 2 or res.cfg["nonrep"]["duration"] <= 2:
+                ctx.count("wholerun_runs_emission_duration_1_or_2_days")
+            if 0 in config_delays(res.cfg):
+                ctx.count("wholerun_runs_with_repair_delay_0")
+            if res.n_sims > 1:
+                ctx.count("wholerun_runs_with_several_simulations")
             if res.ndays <= 2:
                 ctx.count("wholerun_runs_period_of_1_or_2_days")
             if res.start.year != res.end.year:
@@ -800,7 +955,10 @@ def replay(ctx, data):
         from harness import wholerun as W
 
         pool = bool(inp.get("pool_mode"))
-        res = W.run_config(inp["cfg"], debug=not pool, processes=1, trace=True)
+        if inp.get("run_before_in_the_same_folder"):
+            res = W.run_after(inp["run_before_in_the_same_folder"], inp["cfg"], debug=not pool, processes=1, trace=True)
+        else:
+            res = W.run_config(inp["cfg"], debug=not pool, processes=1, trace=True)
         res.pool_mode = pool
         try:
             partial = res.rc != 0
@@ -811,9 +969,10 @@ def replay(ctx, data):
                     return 2
             recs_all = list(EC.records(res))
             method_ids = {m: i + 1 for i, m in enumerate(sorted(res.cfg["methods"]))}
-            delays = [int(x) for x in res.cfg["repair_delay"]]
+            delays = config_delays(res.cfg)
             raised = judge_program_run(ctx, res, recs_all, inp["prog"], inp["sim"], method_ids, delays, record=False,
                                        conform=False)
+            raised += zero_coverage_oracle(ctx, res, record=False)
             for s in raised:
                 print("oracle:", s)
             still = (sig in raised) if sig else bool(raised)
